@@ -93,6 +93,16 @@ def exec_typing(r):
     seq = r["seq"]
     if r.get("linear"):
         return [{"ev": "LinearTyping", "cls": classes.describe(cls), "seq": dna.enc(seq), "res": query(cls, record(seq, circular=False))}]
+    if r.get("plain"):
+        # a circular plasmid in a plain Bio.SeqRecord (what Bio.SeqIO.read hands over): topology annotation "circular"
+        # (any letter case) or no topology annotation at all, which the typing code reads as circular too
+        from Bio.Seq import Seq
+        from Bio.SeqRecord import SeqRecord
+        ann = {"circular": {"topology": "circular", "molecule_type": "DNA"}, "upper": {"topology": "Circular"}, "absent": {}}[r["plain"]]
+        tw = r.get("twin") or {"by": "rot", "k": 0}
+        mk = lambda x: SeqRecord(Seq(x), id="rec", name="rec", annotations=dict(ann))   # noqa: E731
+        return [{"ev": "PlainTyping", "cls": classes.describe(cls), "seq": dna.enc(seq), "res": query(cls, mk(seq)),
+                 "twin": {"by": "rot", "k": tw["k"], "res": query(cls, mk(transform(seq, tw)))}}]
     ev = {"ev": "Typing", "cls": classes.describe(cls), "seq": dna.enc(seq), "res": query(cls, record(seq)),
           "twin": {"by": "none", "k": 0, "res": {}}, "gen": {"has": False, "toks": [], "res": {}}}
     tw = r.get("twin")
